@@ -163,28 +163,32 @@ Proof. split; [exact (tdes_ok toy_des toy_des_ok)|exact toy_aes_ok]. Qed.
 
 (* "1234", PAN 5544332211009966, symbols "FEDCBAABCD": the view reads 34 1234 FEDCBAABCD *)
 Example C14_format3_instance :
-  exists block pb,
-    encode_pinblock_iso_3 good_pin good_pan [70; 69; 68; 67; 66; 65; 65; 66; 67; 68] = Ok block /\
-    pan_block good_pan = Ok pb /\
-    hex_upper (py_xor block pb) = [51; 52; 49; 50; 51; 52; 70; 69; 68; 67; 66; 65; 65; 66; 67; 68].
-Proof. eexists. eexists. vm_compute. repeat split. Qed.
+  encode_pinblock_iso_3 good_pin good_pan [70; 69; 68; 67; 66; 65; 65; 66; 67; 68]
+    = Ok [52; 18; 119; 204; 253; 170; 162; 91] /\
+  pan_block good_pan = Ok [0; 0; 67; 50; 33; 16; 9; 150] /\
+  hex_upper (py_xor [52; 18; 119; 204; 253; 170; 162; 91] [0; 0; 67; 50; 33; 16; 9; 150])
+    = [51; 52; 49; 50; 51; 52; 70; 69; 68; 67; 66; 65; 65; 66; 67; 68].
+Proof. vm_compute. repeat split. Qed.
 
 (* a 12-digit PIN uses two symbols; the other eight do not matter *)
 Example C14_format3_unused :
-  encode_pinblock_iso_3 (good_pin ++ good_pin ++ good_pin) good_pan [70; 69; 65; 65; 65; 65; 65; 65; 65; 65]
-  = encode_pinblock_iso_3 (good_pin ++ good_pin ++ good_pin) good_pan [70; 69; 70; 70; 70; 70; 70; 70; 70; 70]
-  /\ encode_pinblock_iso_3 (good_pin ++ good_pin ++ good_pin) good_pan [70; 69; 65; 65; 65; 65; 65; 65; 65; 65]
-  <> encode_pinblock_iso_3 (good_pin ++ good_pin ++ good_pin) good_pan [70; 70; 65; 65; 65; 65; 65; 65; 65; 65].
-Proof. split; vm_compute; [reflexivity|discriminate]. Qed.
+  same (encode_pinblock_iso_3 (good_pin ++ good_pin ++ good_pin) good_pan
+          [70; 69; 65; 65; 65; 65; 65; 65; 65; 65])
+       (encode_pinblock_iso_3 (good_pin ++ good_pin ++ good_pin) good_pan
+          [70; 69; 70; 70; 70; 70; 70; 70; 70; 70]) = true /\
+  differ (encode_pinblock_iso_3 (good_pin ++ good_pin ++ good_pin) good_pan
+            [70; 69; 65; 65; 65; 65; 65; 65; 65; 65])
+         (encode_pinblock_iso_3 (good_pin ++ good_pin ++ good_pin) good_pan
+            [70; 70; 65; 65; 65; 65; 65; 65; 65; 65]) = true.
+Proof. vm_compute. split; reflexivity. Qed.
 
 Example C14_format4_instance :
   encode_pin_field_iso_4 good_pin good_tape8 =
     Ok ([68; 18; 52; 170; 170; 170; 170; 170] ++ good_tape8).
 Proof. vm_compute. reflexivity. Qed.
 
-(* wraps with the toy ciphers: 16-byte key, no extra pad: 6 (A/B/C) or 14 (D) bytes drawn *)
-Definition ex_hdr : str := [66; 48; 48; 57; 54; 80; 48; 84; 69; 48; 48; 78; 48; 48; 48; 48].
-
+(* wraps with the toy ciphers ([ex_hdr] = "B0096P0TE00N0000"; [differ a b]: both are values,
+   and different ones): 16-byte key, no extra pad: 6 (A/B/C) or 14 (D) bytes drawn *)
 Example C14_wrap_instances :
   is_ok (c_wrap toy_tdes toy_aes key16 ex_hdr key16 0 [1; 2; 3; 4; 5; 6]) = true /\
   is_ok (b_wrap toy_tdes toy_aes key16 ex_hdr key16 0 [1; 2; 3; 4; 5; 6]) = true /\
@@ -197,8 +201,11 @@ Example C14_wrap_instances :
   is_ok (b_wrap toy_tdes toy_aes key16 ex_hdr key16 8 [1; 2; 3; 4; 5; 6; 7; 8; 9; 10; 11; 12; 13; 14])
     = true /\
   (* different tapes, different key blocks *)
-  c_wrap toy_tdes toy_aes key16 ex_hdr key16 0 [1; 2; 3; 4; 5; 6] <>
-  c_wrap toy_tdes toy_aes key16 ex_hdr key16 0 [1; 2; 3; 4; 5; 7] /\
-  b_wrap toy_tdes toy_aes key16 ex_hdr key16 0 [1; 2; 3; 4; 5; 6] <>
-  b_wrap toy_tdes toy_aes key16 ex_hdr key16 0 [1; 2; 3; 4; 5; 7].
-Proof. vm_compute. repeat split; discriminate. Qed.
+  differ (c_wrap toy_tdes toy_aes key16 ex_hdr key16 0 [1; 2; 3; 4; 5; 6])
+         (c_wrap toy_tdes toy_aes key16 ex_hdr key16 0 [1; 2; 3; 4; 5; 7]) = true /\
+  differ (b_wrap toy_tdes toy_aes key16 ex_hdr key16 0 [1; 2; 3; 4; 5; 6])
+         (b_wrap toy_tdes toy_aes key16 ex_hdr key16 0 [1; 2; 3; 4; 5; 7]) = true /\
+  differ (d_wrap toy_tdes toy_aes key16 ex_hdr key16 0 [1; 2; 3; 4; 5; 6; 7; 8; 9; 10; 11; 12; 13; 14])
+         (d_wrap toy_tdes toy_aes key16 ex_hdr key16 0 [1; 2; 3; 4; 5; 6; 7; 8; 9; 10; 11; 12; 13; 15])
+    = true.
+Proof. vm_compute. repeat split. Qed.
